@@ -61,3 +61,10 @@ pub use default::*;
 pub use epoch::*;
 pub use guard::*;
 pub use pointers::*;
+
+#[cfg(circ_verif)]
+pub use collector::{Collector, LocalHandle};
+#[cfg(circ_verif)]
+pub(crate) use sync::list::{Entry, IsElement, IterError, List};
+#[cfg(circ_verif)]
+pub(crate) use sync::queue::Queue;
